@@ -7,7 +7,7 @@ PROP = {
                'swap/assignment between all unrelated node pairs) on real heap-allocated trees under ASan; after every transition every '
                "child's parent(), every traversal and every observer is compared with a plain recursive model. The search reaches a "
                'fix-point inside the node cap, so the claim covers histories of any length that stay inside the cap.',
- 'level_note': 'node cap 6 (quick) / 7 (thorough) over two roots plus one detached tree, values {0,1}; swap/assignment between a node and its own ancestor/descendant are preconditions and outside the alphabet; links are checked, not hashed (argument in harness/C09.cpp)',
+ 'level_note': 'node cap 6 (quick) / 7 (thorough) over two roots plus one detached tree, values {0,1}; swap between related nodes and assignment of an ancestor into its own descendant are preconditions and outside the alphabet (assignment from a descendant to its ancestor is inside); links are checked, not hashed (argument in harness/C09.cpp)',
  'binaries': [{'name': 'C09', 'sources': ['harness/C09.cpp'], 'libs': [], 'flavour': 'asan'}],
  'deadline': {'quick': 300, 'thorough': 1500},
  'rule': 'BFS over histories of tree operations; a transition is non-trivial when it changes the canonical state (shape and values of both roots and the spare); states are distinct canonical renderings',
